@@ -402,6 +402,9 @@ def pg_classify(case, reason, line):
     det = ""
     if case["shape"] == "fank":
         det = "-width%d" % len(case["nodes"])
+    if reason in ("paradigms-disagree", "value-differs-from-reference"):
+        # how the streams were backed is part of the failing input: array-backed producer chunks (spare capacity?), partly read input
+        det += "-bk=%s%s" % (case.get("bk", "pipe"), "-hdr" if case.get("hdr") else "")
     if reason in ("panic", "hang"):
         bad = [p for p in "ISCT" if res[p]["kind"] == reason]
         det += "-" + "".join(bad) + "-" + hashlib.sha1(res[bad[0]]["msg"][:50].encode()).hexdigest()[:6]
@@ -435,6 +438,8 @@ def c04(tier, repo=None):
                 # edge + branch to the same target (multi-chunk pipe producers); END reached with no data (execution-only predecessor, every
                 # data predecessor skipped), input type string vs output type map[string]any, as Workflow and as AllPredecessor graph
                 ("ebr", dict(Shapes=["ebr", "eskw", "eskg"], NatFam="four", OCs=[1, 2], InFam="two", MaxNodes=3), 2500),
+                # fan-out then fan-in of map streams without output keys (array-backed producers with spare capacity), each case repeated
+                ("fofi", dict(Shapes=["fofi"], NatFam="four", OCs=[2, 3], InFam="two", MaxNodes=5), None),
                 # last, because a hanging merge uses up the harness's quota of hung calls and the rest is then not run
                 ("wide", dict(Shapes=["fank"], NatFam="four", OCs=[2, 3], InFam="two", MaxNodes=6), None)]
     else:
@@ -446,6 +451,7 @@ def c04(tier, repo=None):
                 ("handlers", dict(MaxNodes=2, NatFam="six", OCs=[2], InFam="three", Handlers=["none", "val", "str"], AllowAny=True, AllowFail=True), 40000),
                 ("nil", dict(Shapes=["nil1", "nil2", "nilif", "nilin", "nilbr"], NatFam="six", OCs=[1, 2, 3], InFam="three", MaxNodes=3, AllowFail=True), 40000),
                 ("ebr", dict(Shapes=["ebr", "eskw", "eskg"], NatFam="six", OCs=[1, 2, 3], InFam="three", MaxNodes=3), 40000),
+                ("fofi", dict(Shapes=["fofi"], NatFam="six", OCs=[1, 2, 3], InFam="five", MaxNodes=5), 4000),
                 ("wide", dict(Shapes=["fank"], NatFam="four", OCs=[1, 2, 3], InFam="five", MaxNodes=6, AllowFail=True), 20000)]
     cases, seen, gen_stats = [], set(), []
     states = trans = 0
@@ -467,6 +473,19 @@ def c04(tier, repo=None):
         log("  family %s: TLC %d distinct states (law holds on the model; D13 named), %d new cases, %d replayed, %.0fs" % (
             name, run.distinct, total, len(fam), run.wall_s))
         cases += fam
+    # secondary dimensions the model is indifferent to (a chunk sequence is a chunk sequence), spread by VERIF_SEED: how multi-chunk
+    # producer outputs are backed (pipe / array / array over a slice with spare capacity) and whether Collect / Transform get an
+    # array-backed input reader off which the caller has already read a header chunk.  The fan-out + fan-in family is run with every
+    # backing and repeated (the merge order of a fan-in is random).
+    expanded = []
+    for c in cases:
+        if c["fam"] == "fofi":
+            for bk, reps in (("arrcap", 8), ("arr", 2), ("pipe", 2)):
+                for k in range(reps):
+                    expanded.append(dict(c, bk=bk, hdr=(k % 2 == 1)))
+        else:
+            expanded.append(dict(c, bk=("pipe", "arr", "arrcap")[rnd.randrange(3)], hdr=rnd.random() < 0.35))
+    cases = expanded
     for i, c in enumerate(cases):
         c["id"] = "%s-%d" % (c["fam"], i)
     lines, wall_go = _replay("TestVerifParadigm", PG_OVERLAY, cases, "paradigm replay", repo=repo)
@@ -529,7 +548,7 @@ def c04(tier, repo=None):
     code, n_new, n_known = verdict.finish()
     for sig, k in sorted(sig_count.items()):
         log("  rejected, reproduced: sig=%s %d cases" % (sig, k))
-    nontriv = len({pg_key(c) for c in cases if len(c["in"]) > 1 and any(len(n["nat"]) < 4 for n in c["nodes"])})
+    nontriv = len({pg_key(c) + c["bk"] + str(c["hdr"]) for c in cases if len(c["in"]) > 1 and any(len(n["nat"]) < 4 for n in c["nodes"])})
     some = vlib.sample(sorted(obs.keys()), 3)
     cov = {"states": states, "transitions": trans, "traces_validated_against_impl": len(obs) - skipped,
            "samples": [{"case": by_id[k], "observation": {p: {x: obs[k]["res"][p][x] for x in ("kind", "chunks", "forms")} for p in "ISCT"}} for k in some],
